@@ -365,6 +365,12 @@ class C20(Check):
         canc += rng.sample(rest, 10) if quick else rest
         canc += [decorate(rng, t) for t in
                  (rng.sample(small, 12) if quick else small)]
+        # sections without a yield inside: the task leaves in the same pass
+        # in which it entered, while others are still on their way in
+        canc += [[['W1'], ['R0'], ['R1'], ['R1']],
+                 [['W1'], ['R0'], ['R0'], ['R1']],
+                 [['W1'], ['R0'], ['R1']], [['R0'], ['W0'], ['R1']],
+                 [['W1'], ['W0'], ['R0'], ['R1']]]
         for t in canc:
             for cp in cancel_points(t):
                 add(mode='sweep', impl='asyncio', tasks=t, gaps=GAPS_ALL,
